@@ -84,6 +84,16 @@ CHECKS = {
    text="Every combination of 5 session states (no debugger, client connected, stopped at a breakpoint on the test runner, running a long test, test finished) and 4 orders (shutdown+exit, disconnect first, disconnect after shutdown, closing the pipe without shutdown) is driven against a real server process with generated delays; the process must exit with status 0 within 10 s and release its debug port. A process that is still alive is a violation only with a deadlock witness from /proc (all threads sleeping, no CPU consumed between samples).",
    note="Thread schedules are sampled by timing (delays), not enumerated: a shutdown race with a microsecond window may stay unseen. The VICE back-end is not exercised (no emulator in the sandbox); only the built-in test-runner machine.",
    ref="§5 C20"),
+ "C15": dict(
+   technique="proptest over generated programs x one identifier occurrence; oracle: static binding model (documented scoping, validated against the build through the layout model) for the exact edit set, metamorphic build comparison before/after the rename, round trip (rename back)",
+   text="For a generated error-free program and one generated identifier occurrence (definition or any component of a use path) a live language server is asked to rename it to a fresh name; where prepareRename offers it, the WorkspaceEdit must touch exactly the occurrences bound to that symbol (none of `super`, equally named symbols, other text), the edited program must assemble to identical bytes and diagnostics, and a second rename back to the old name must restore the original text.",
+   note="Single-file programs (imports with `as` are not generated yet). Occurrences in code the assembler never emits (zero-count loops, uninvoked macros) are optional in the expected edit set. New names are fresh only.",
+   ref="§5 C15"),
+ "C16": dict(
+   technique="proptest over generated programs; oracle: static binding model of the documented scoping rule, anchored to the build by requiring byte-for-byte agreement of the image with the reference layout model",
+   text="Every path component of every identifier use in a generated program is sent to textDocument/definition of a live server and must lead to exactly the definition the scoping rule binds it to; for every label/constant/variable definition textDocument/references (with and without declaration) and documentHighlight must equal exactly the set of occurrences bound to it.",
+   note="The binding oracle is the one the build used: programs are only judged when the assembled image equals the reference model's image, whose operand values come from the same binding. Uses in never-emitted code and `super` components are not judged. Single-file programs.",
+   ref="§5 C16"),
 }
 
 NOT_YET = {
